@@ -29,6 +29,8 @@ def hdlc_suffix(rng, cfg, n: int, max_info: int | None = 60):
         out += b"\x7e"
         if i != n - 1 and rng.random() < 0.6:
             out += b"\x7e"  # closing + opening flag; otherwise one shared flag
+        elif i != n - 1 and rng.random() < 0.25:
+            out += hdlc_gen.fill(rng)  # time fill between frames
     return bytes(out), sent
 
 
